@@ -291,7 +291,20 @@ pub fn run(ctx: &mut Ctx) {
                 ctx.count(&format!("piece={k}"));
             }
             match wat::parse_str(&text) {
-                Ok(b) => (b, "generated".to_string(), depth),
+                Ok(mut b) => {
+                    // one in three ends in two *neighbouring* type sections (one item, then two): a binary form that text-to-binary
+                    // tools never write (they put the items of one kind that follow each other into one section)
+                    if r.chance(1, 3) {
+                        let mut b2 = b.clone();
+                        b2.extend_from_slice(&[7, 2, 1, 0x7d]);
+                        b2.extend_from_slice(&[7, 3, 2, 0x7d, 0x7c]);
+                        if wasmparser::Validator::new_with_features(wasmparser::WasmFeatures::all()).validate_all(&b2).is_ok() {
+                            ctx.count("sections=neighbouring-same-kind");
+                            b = b2;
+                        }
+                    }
+                    (b, "generated".to_string(), depth)
+                }
                 Err(e) => panic!("comp: generated text does not parse: {e}\n{text}"),
             }
         };
